@@ -1,13 +1,15 @@
 """C12 - negotiation carries addresses and identifiers faithfully and checks them.
 
-Parts run here: (a) header emission, (b) header acceptance, (d) resource binding.
+Parts run here: (a) header emission, (b) header acceptance - single headers and SEQUENCES of
+headers presented to one session across stream restarts -, (d) resource binding.
 Part (c) (addresses across restarts) belongs to the negotiation family (Negotiation.tla:
 HdrAccept / C12_EstabStable), see the hook in run().
 
 Pipeline A: TLC design checks of tla/Header.tla (emission: every permitted encoding of every
 vector is well-formed and decodes to the input; acceptance: the step rules of Expect accept
-only what the property allows) and tla/Bind.tla (both roles), plus non-vacuity runs with the
-named deviations switched on.
+only what the property allows; sequences: header k is judged on header k alone plus the address
+rule, and the Info holds nothing of an earlier stream) and tla/Bind.tla (both roles), plus
+non-vacuity runs with the named deviations switched on.
 Pipeline B: TLC (EmitHeader, EmitBind) writes the vectors / scenarios together with the
 expectation computed from the specification.
 Pipeline C: the drivers header and bind run every vector through real sessions
@@ -25,6 +27,8 @@ BCONSTS = 'CONSTANTS\n  MaxStr = %d\n  NSess = %d\n  Dev = %s\n'      # Bind.tla
 HEADER_A = "SPECIFICATION SpecA\nINVARIANT C12_EmitWellFormed\nINVARIANT C12_EmitRoundTrip\nCHECK_DEADLOCK FALSE\n"
 HEADER_B = ("SPECIFICATION SpecB\nINVARIANT C12_AcceptOnlyIf\nINVARIANT C12_StreamErrorReturned\n"
             "INVARIANT C12_VerdictMatchesExpectation\nCHECK_DEADLOCK FALSE\n")
+HEADER_S = ("SPECIFICATION SpecS\nINVARIANT C12_SeqAcceptOnlyIf\nINVARIANT C12_SeqInfoOwn\nINVARIANT C12_SeqStreamErrorReturned\n"
+            "INVARIANT C12_SeqVerdictMatchesExpectation\nCHECK_DEADLOCK FALSE\n")
 BIND = ("SPECIFICATION %s\nINVARIANT C12_BindRequestOwn\nINVARIANT C12_BindAdoptAssigned\n"
         "INVARIANT C12_BindNoReadyOnError\nINVARIANT C12_BindAnswerId\nINVARIANT C12_BindAnswerAddr\n"
         "INVARIANT C12_BindExpectation\nCHECK_DEADLOCK FALSE\n")
@@ -36,6 +40,7 @@ FAMILIES = {
     "header-emit": ("header", "emit", "emit_vectors.ndjson"),
     "header-emit-shared": ("header", "emit-shared", "emit_shared.ndjson"),
     "header-accept": ("header", "accept", "accept_vectors.ndjson"),
+    "header-accept-seq": ("header", "accept-seq", "accept_seq.ndjson"),
     "bind-init": ("bind", "init", "bind_init.ndjson"),
     "bind-recv": ("bind", "recv", "bind_recv.ndjson"),
     "bind-shared": ("bind", "shared", "bind_shared.ndjson"),
@@ -69,6 +74,19 @@ def classify(family, m):
         return "header-accept-verdict", "header %s (%s, %s): expected %s, observed %s%s" % (
             m["bytes"][:200], v["in"]["role"], v["in"]["framing"], v["exp"], m["observed"],
             (" (" + "; ".join(m["info"][:2]) + ")") if m.get("info") else "")
+    if family == "header-accept-seq":
+        v = m["vector"]
+        h1 = v["in"]["hs"][0]
+        n = len(v["in"]["hs"])
+        m = dict(m, bytes=m["bytes"].replace("\n", "\\n").replace("\t", "\\t"))
+        if m["observed"] == "panic":
+            return "header-seq-panic", "presenting %s makes the session constructor panic (%s)" % (m["bytes"][:300], m["detail"][:80])
+        if m.get("info") and (v["exp"][-1] != "reject" or m["observed"] != "accept"):
+            return "header-seq-recovered-values", "header %d of a session, sent after a stream restart, is accepted and %s: %s (%s, %s)" % (
+                n, "; ".join(m["info"][:2]), m["bytes"][:400], h1["role"], h1["framing"])
+        return "header-seq-verdict", "header %d of a session, sent after a stream restart (%s, %s): %s: expected %s, observed %s%s" % (
+            n, h1["role"], h1["framing"], m["bytes"][:400], v["exp"][-1], m["observed"],
+            (" (" + "; ".join(m["info"][:2]) + ")") if m.get("info") else "")
     d = m["diffs"]
     if family == "bind-init" and all(x.startswith("requested resourcepart") for x in d):
         return "bind-request-drops-resource", "bind request does not ask for the session's own resourcepart: " + d[0]
@@ -77,6 +95,23 @@ def classify(family, m):
     if family == "bind-shared":
         return "bind-shared-other", "sessions negotiated with one feature list value differ from the specification: " + "; ".join(d[:3])
     return family + "-other", "resource binding differs from the specification: " + "; ".join(d[:3])
+
+
+def emit(ctx, module, cfg, outputs):
+    """Run an Emit* module once (generous timeout: a loaded machine is no verdict); copy the files it serialises."""
+    import os
+    import shutil
+    r = ctx.tlc(module, cfg, workers=1, timeout=1500, xss=True, heap="4g")
+    if not r.ok:
+        raise verif.Undecided("%s failed:\n%s" % (module, r.out[-2500:]))
+    res = {}
+    for n in outputs:
+        src = os.path.join(r.dir, n)
+        if not os.path.exists(src):
+            raise verif.Undecided("%s did not write %s" % (module, n))
+        res[n] = ctx.path(n)
+        shutil.copy(src, res[n])
+    return res
 
 
 def run_family(ctx, family, vectors):
@@ -110,6 +145,17 @@ def selftest(ctx, files):
               and v["in"]["id"] == "absent" and v["in"]["version"]["parts"] == [[1], [0]] and v["in"]["from"] == "valid")
     v["info"]["id"] = "real"
     cases.append(("header-accept", v, lambda m: m["observed"] == "accept" and any("In() id" in x for x in m["info"])))
+    # sequences across restarts: (1) the verdict on the last header, (2) what the session reports after it (a last
+    # header without xml:lang that is accepted, declared to carry one)
+    v = first(files["accept_seq.ndjson"], lambda v: v["exp"][-1] == "reject" and v["in"]["hs"][-1]["name"] == "stream"
+              and not v["in"]["hs"][-1]["version"]["present"] and v["in"]["hs"][-1]["pre"] == "none")
+    v["exp"][-1] = "streamerror"
+    cases.append(("header-accept-seq", v, lambda m: m["observed"] == "reject"))
+    v = first(files["accept_seq.ndjson"], lambda v: len(v["in"]["hs"]) == 2 and v["exp"][-1] == "any" and v["info"]["lang"] == "own"
+              and v["in"]["hs"][0]["role"] == "recv" and v["in"]["hs"][0]["to"] == "valid" and v["in"]["hs"][-1]["xmlns"] == "client"
+              and v["in"]["hs"][-1]["id"] == "set" and v["in"]["hs"][-1]["to"] == "valid" and v["in"]["hs"][-1]["from"] == "valid")
+    v["info"]["lang"] = "real"
+    cases.append(("header-accept-seq", v, lambda m: m["observed"] == "accept" and any("In() lang" in x for x in m["info"])))
     v = first(files["bind_init.ndjson"], lambda v: v["in"]["kind"] == "result" and v["in"]["res"] == [])
     v["exp"]["addr"] = {"own": "otheraccount", "otherres": "own", "otheraccount": "own"}[v["exp"]["addr"]]
     cases.append(("bind-init", v, lambda m: any(x.startswith("LocalAddr()") for x in m["diffs"])))
@@ -125,34 +171,42 @@ def selftest(ctx, files):
               and all(x["acct"] == 1 and x["res"] == [0] for x in v["in"]["sess"]) and v["in"]["sched"] == [1, 2, 1, 2])
     v["exp"]["fresh"] = [True, True]
     cases.append(("bind-shared", v, lambda m: any("is not fresh" in x for x in m["diffs"])))
-    for k, (fam, vec, pred) in enumerate(cases):
+    def one(kc):
+        k, (fam, vec, pred) = kc
         p = ctx.path("selftest-%d.ndjson" % k)
         open(p, "w").write(json.dumps(vec) + "\n")
         s = run_family(ctx, fam, p)
         if len(s["mismatches"]) != 1 or not pred(s["mismatches"][0]):
             raise verif.Undecided("binding self-test: corrupted expectation of %s was not reported: %s" % (fam, json.dumps(s["mismatches"])[:500]))
+    ac.parallel(one, list(enumerate(cases)))
     return len(cases)
 
 
-def nonvacuous(ctx, quick):
+def nonvacuous_runs(quick):
     runs = [("MCHeader", HEADER_A, "RawAttributes", "C12_EmitWellFormed"),
             # (version numbers read into eight bits; attributes selected by their local name: over the vectors of
             # those two dimensions only)
             ("MCHeader", HEADER_B.replace("SpecB", "SpecBV"), "VersionModulo256", "C12_AcceptOnlyIf"),
             ("MCHeader", HEADER_B.replace("SpecB", "SpecBV"), "LocalNameOnly", "C12_AcceptOnlyIf"),
+            # (a restart that keeps the input Info: header 2 without version / id / namespace passes on header 1's, and the
+            # Info reports header 1's language; one run per invariant)
+            ("MCHeader", "SPECIFICATION SpecSV\nINVARIANT C12_SeqAcceptOnlyIf\nCHECK_DEADLOCK FALSE\n", "KeepInfoAcrossRestart", "C12_SeqAcceptOnlyIf"),
+            ("MCHeader", "SPECIFICATION SpecSV\nINVARIANT C12_SeqInfoOwn\nCHECK_DEADLOCK FALSE\n", "KeepInfoAcrossRestart", "C12_SeqInfoOwn"),
             ("MCBind", BIND % "SpecInit", "DropResource", "C12_BindRequestOwn"),
             ("MCBind", BIND_SHARED, "ResourcePerFeature", "C12_BindFresh")]
     if not quick:
         runs += [("MCHeader", HEADER_B, "AcceptOldVersion", "C12_AcceptOnlyIf"),
                  ("MCBind", BIND % "SpecInit", "IgnoreId", "C12_BindAdoptAssigned")]
-    def one(run):
-        mod, cfg, dev, inv = run
-        consts = BCONSTS % (1, 2, ac.dev_set([dev])) if mod == "MCBind" else CONSTS % (1, ac.dev_set([dev]))
-        return ctx.tlc(mod, consts + cfg, timeout=300, name=mod, workers=4)
-    for (mod, cfg, dev, inv), r in zip(runs, ac.parallel(one, runs)):
-        if inv not in r.violated:
-            raise verif.Undecided("non-vacuity: deviation %s does not violate %s:\n%s" % (dev, inv, r.out[-1500:]))
-    return len(runs)
+    return runs
+
+
+def nonvacuous_one(ctx, run):
+    mod, cfg, dev, inv = run
+    consts = BCONSTS % (1, 2, ac.dev_set([dev])) if mod == "MCBind" else CONSTS % (1, ac.dev_set([dev]))
+    r = ctx.tlc(mod, consts + cfg, timeout=900, name=mod, workers=4, heap="2g")
+    if inv not in r.violated:
+        raise verif.Undecided("non-vacuity: deviation %s does not violate %s:\n%s" % (dev, inv, r.out[-1500:]))
+    return r
 
 
 def run(ctx):
@@ -161,19 +215,30 @@ def run(ctx):
     strict = CONSTS % (n, "{}")
     bstrict = BCONSTS % (n, 3, "{}")
     bemit = BCONSTS % (n, 3 if quick else 4, "{}")    # NSess = 4: every interleaving of four sessions is emitted
-    # ---------------------------------------------------------------- pipeline A
-    mc = {}
-    mc["emit"] = ctx.model_check("MCHeader", strict + HEADER_A, ["C12_EmitWellFormed", "C12_EmitRoundTrip"], name="MCHeader")
-    mc["accept"] = ctx.model_check("MCHeader", strict + HEADER_B, ["C12_AcceptOnlyIf", "C12_StreamErrorReturned", "C12_VerdictMatchesExpectation"], name="MCHeader")
-    mc["bind_init"] = ctx.model_check("MCBind", bstrict + BIND % "SpecInit", ["C12_BindRequestOwn", "C12_BindAdoptAssigned", "C12_BindNoReadyOnError", "C12_BindExpectation"], name="MCBind")
-    mc["bind_recv"] = ctx.model_check("MCBind", bstrict + BIND % "SpecRecv", ["C12_BindAnswerId", "C12_BindAnswerAddr", "C12_BindExpectation"], name="MCBind")
-    # feature values shared by several interleaved sessions: resourceparts of default binds are fresh
-    mc["bind_shared"] = ctx.model_check("MCBind", bstrict + BIND_SHARED, ["C12_BindFresh", "C12_BindOwnAccount", "C12_BindCallbackOwnArgs"], name="MCBind")
-    nv = nonvacuous(ctx, quick)
-    # ---------------------------------------------------------------- pipeline B
-    files, _ = ac.emit(ctx, "EmitHeader", strict + "INIT EInit\nNEXT ENext\n", ["emit_vectors.ndjson", "emit_shared.ndjson", "accept_vectors.ndjson"])
-    f2, _ = ac.emit(ctx, "EmitBind", bemit + "INIT EInit\nNEXT ENext\n", ["bind_init.ndjson", "bind_recv.ndjson", "bind_shared.ndjson"])
-    files.update(f2)
+    # ---------------------------------------------------------------- pipelines A and B (independent TLC runs, four at a time)
+    def design(key, mod, cfg, props):
+        return lambda: (key, ctx.model_check(mod, cfg, props, name=mod, workers=4, heap="3g"))
+    jobs = [
+        # sequences of headers across one / two restarts
+        design("accept_seq", "MCHeader", strict + HEADER_S, ["C12_SeqAcceptOnlyIf", "C12_SeqInfoOwn", "C12_SeqStreamErrorReturned", "C12_SeqVerdictMatchesExpectation"]),
+        # feature values shared by several interleaved sessions: resourceparts of default binds are fresh
+        design("bind_shared", "MCBind", bstrict + BIND_SHARED, ["C12_BindFresh", "C12_BindOwnAccount", "C12_BindCallbackOwnArgs"]),
+        design("accept", "MCHeader", strict + HEADER_B, ["C12_AcceptOnlyIf", "C12_StreamErrorReturned", "C12_VerdictMatchesExpectation"]),
+        lambda: ("emit_header", emit(ctx, "EmitHeader", strict + "INIT EInit\nNEXT ENext\n", ["emit_vectors.ndjson", "emit_shared.ndjson", "accept_vectors.ndjson", "accept_seq.ndjson"])),
+        lambda: ("emit_bind", emit(ctx, "EmitBind", bemit + "INIT EInit\nNEXT ENext\n", ["bind_init.ndjson", "bind_recv.ndjson", "bind_shared.ndjson"])),
+        design("emit", "MCHeader", strict + HEADER_A, ["C12_EmitWellFormed", "C12_EmitRoundTrip"]),
+        design("bind_init", "MCBind", bstrict + BIND % "SpecInit", ["C12_BindRequestOwn", "C12_BindAdoptAssigned", "C12_BindNoReadyOnError", "C12_BindExpectation"]),
+        design("bind_recv", "MCBind", bstrict + BIND % "SpecRecv", ["C12_BindAnswerId", "C12_BindAnswerAddr", "C12_BindExpectation"]),
+    ]
+    nvruns = nonvacuous_runs(quick)
+    jobs += [(lambda run: lambda: ("nv", nonvacuous_one(ctx, run)))(run) for run in nvruns]
+    mc, files = {}, {}
+    for key, r in ac.parallel(lambda j: j(), jobs):
+        if key.startswith("emit_"):
+            files.update(r)
+        elif key != "nv":
+            mc[key] = r
+    nv = len(nvruns)
     # ---------------------------------------------------------------- pipeline C
     todo = dict((fam, files[FAMILIES[fam][2]]) for fam in FAMILIES)
     if ctx.replay:
@@ -185,6 +250,11 @@ def run(ctx):
     # the neg driver (header scripts with matching / differing / absent addresses across restarts,
     # both roles, c2s and s2s) validated by TLC.
     partc = {"traces": 0, "rejected": 0}
+    # (the vector families run next to the negotiation scenarios: separate processes)
+    for drv in sorted(set(FAMILIES[fam][0] for fam in todo)):
+        ctx.go_build(drv)
+    from concurrent.futures import ThreadPoolExecutor
+    famres = ThreadPoolExecutor(max_workers=1).submit(lambda: ac.parallel(lambda fam: run_family(ctx, fam, todo[fam]), list(todo)))
     if not ctx.replay:
         import negcommon as nc
         pools = nc.emit_pool(ctx)
@@ -196,8 +266,7 @@ def run(ctx):
 
     open_classes = {f.get("class"): f for f in ctx.open_findings() if f.get("class")}
     totals, per_class, samples, verdicts = {}, {}, [], {}
-    for fam, path in todo.items():
-        s = run_family(ctx, fam, path)
+    for fam, s in zip(todo, famres.result()):
         totals[fam] = {"vectors": s["evaluations"], "distinct": s["distinct"], "mismatches": len(s["mismatches"]), "extra": s.get("extra", {})}
         samples += s["samples"][:1]
         ctx.log("%s: %d vectors, %d mismatches" % (fam, s["evaluations"], len(s["mismatches"])))
@@ -219,7 +288,16 @@ def run(ctx):
             ctx.violation("%s [%s, %d vectors in this class]" % (re.sub(r"[0-9a-f]{16}", "<random id>", what), cls, len(ms)),
                           {"family": fam, "class": cls, "vector": m["vector"], "observed": obs,
                            "expected": m["vector"].get("exp")})
-    nself = selftest(ctx, files) if not ctx.replay else 0
+    nself = 0
+    if not ctx.replay:
+        try:
+            nself = selftest(ctx, files)
+        except verif.Undecided as ex:
+            # (the self-test presents corrupted expectations to the tree under test; a tree that violates the property may
+            # also refuse the header the self-test needs accepted: the violations found above stand)
+            if not ctx.violations:
+                raise
+            ctx.notes.append("binding self-test not conclusive on a tree with violations: %s" % str(ex)[:300])
     nvec = sum(t["vectors"] for t in totals.values())
     ctx.notes.append("part (c) restart header rule: %s" % json.dumps(partc))
     ctx.write_evidence("model_checking", {
@@ -229,8 +307,8 @@ def run(ctx):
         "distinct_nontrivial": sum(t["distinct"] for t in totals.values()),
         "by_family": totals, "mismatches_by_class": {k: len(v) for k, v in per_class.items()},
         "nonvacuity_runs_violating": nv, "binding_selftest_corruptions_reported": nself,
-        "exhaustive": "emission through one Negotiator value shared by 2-3 successive sessions with different addresses (constant and per-session configuration function, both roles, c2s/s2s, both framings); emission: special characters (' & < > \") in every position of resourceparts / language strings up to length %d, one value at a time and all together, both roles, c2s/s2s, TCP and WebSocket framing; acceptance: full product of role x framing x element name x default namespace x version x id x to x from x prefix (declaration / whitespace) + stream errors; version attribute: every pair (major, minor) of 37 number forms (0 1 9 10 255 256 257 512 513 65536 65537 2^32 2^32+1 2^64 2^64+1, 41-digit numbers, leading zeros, signs, blanks, nothing, letters), one part only, three parts, x both roles x both framings; look-alike attributes: for id / version / from / to / xml:lang a foreign-namespace attribute of the same local name (in front of or behind the real one) or a declaration of a prefix of that name, next to every combination of present and absent real attributes (one look-alike) and next to all / none of them (two look-alikes), both roles, both framings - verdict AND the values an accepting session recovered (In(), RemoteAddr()/LocalAddr(), the answering header) compared; bind: every own resourcepart up to length %d x 12 reply kinds x 3 assigned addresses, 2 request ids x requested resources x 7 callback behaviours; shared feature list values (one or two values: BindResource(), BindCustom(nil), callbacks): 2 sessions x every interleaving x accounts x requests, 3 sessions x every interleaving x accounts, 4 sessions (%s), sessions of one feature value sharing the Negotiator or only the feature list; assigned resourceparts of default binds compared pairwise across sessions, accounts and feature values" % (n, n, "successive / all open before the first bind / nested / mixed" if quick else "every interleaving"),
-        "rule": "vector families: TLC writes input and expectation, the driver compares the real sessions' behaviour with it; every mismatch is re-run once",
+        "exhaustive": "emission through one Negotiator value shared by 2-3 successive sessions with different addresses (constant and per-session configuration function, both roles, c2s/s2s, both framings); emission: special characters (' & < > \") in every position of resourceparts / language strings up to length %d, one value at a time and all together, both roles, c2s/s2s, TCP and WebSocket framing; acceptance: full product of role x framing x element name x default namespace x version x id x to x from x prefix (declaration / whitespace) + stream errors; version attribute: every pair (major, minor) of 37 number forms (0 1 9 10 255 256 257 512 513 65536 65537 2^32 2^32+1 2^64 2^64+1, 41-digit numbers, leading zeros, signs, blanks, nothing, letters), one part only, three parts, x both roles x both framings; look-alike attributes: for id / version / from / to / xml:lang a foreign-namespace attribute of the same local name (in front of or behind the real one) or a declaration of a prefix of that name, next to every combination of present and absent real attributes (one look-alike) and next to all / none of them (two look-alikes), both roles, both framings - verdict AND the values an accepting session recovered (In(), RemoteAddr()/LocalAddr(), the answering header) compared; SEQUENCES of headers across stream restarts (one real session, restarted by an instrumented stream feature whose Negotiate returns the connection; both roles, both framings): after a complete first header the whole acceptance product again (element name x default namespace x version x id x to x from with the address values absent / established / another valid address / unparsable, stream errors) and every look-alike vector; after a first header without addresses, and as third header after two complete ones or after a bare and a complete one (two restarts), every combination of version absent / 1.0 / 0.9 x id absent / empty / set x to x from x xml:lang x default namespace (x XML declaration / whitespace in front) - the last header is judged on its own attributes plus the address rule, and In() after it must hold that header's id / version / language / namespace and nothing an earlier header said (every header of a session carries an id and a language of its own); bind: every own resourcepart up to length %d x 12 reply kinds x 3 assigned addresses, 2 request ids x requested resources x 7 callback behaviours; shared feature list values (one or two values: BindResource(), BindCustom(nil), callbacks): 2 sessions x every interleaving x accounts x requests, 3 sessions x every interleaving x accounts, 4 sessions (%s), sessions of one feature value sharing the Negotiator or only the feature list; assigned resourceparts of default binds compared pairwise across sessions, accounts and feature values" % (n, n, "successive / all open before the first bind / nested / mixed" if quick else "every interleaving"),
+        "rule": "vector families: TLC writes input and expectation, the driver compares the real sessions' behaviour with it; every mismatch is re-run once. Header sequences across restarts: the expectation for header k is a function of header k and of the ADDRESSES of the headers before it only (Header.tla ExpectAt / RecoverAt; design check C12_SeqAcceptOnlyIf, C12_SeqInfoOwn over the merge-by-attribute model of the input Info, deviation KeepInfoAcrossRestart rejected)",
         "samples": samples[:3],
         "part_c": "restart header address rule: covered by the negotiation family (Negotiation.tla C12_EstabStable), not run here",
     }, assumptions=[
